@@ -160,6 +160,11 @@ func vfC06Gen(rt *rapid.T) vfC06Case {
 			} else if rapid.IntRange(0, 2).Draw(rt, "explicit_id") > 0 {
 				for {
 					d.ID = uint32(1<<30 + rapid.IntRange(0, 1<<20).Draw(rt, "doc_id"))
+					if rapid.IntRange(0, 7).Draw(rt, "id_at_the_top_of_the_range") == 0 {
+						// explicit ids right below 2^32 (e.g. hashed external keys): automatic ids must stay
+						// clear of them and of everything handed out before
+						d.ID = math.MaxUint32 - uint32(rapid.IntRange(0, 3).Draw(rt, "top_id"))
+					}
 					if !used[d.ID] {
 						used[d.ID] = true
 						break
